@@ -261,8 +261,29 @@ def _descending_indices(it):
     return False
 
 
+def close_target(ctx):
+    """Slice assignment re-validates every connection (Path.validate_connections).  That walk takes the close target from the
+    last Move - or, for a fragment that begins without one, from the END of whatever segment is first.  Replacing the first arc
+    by several curves (or by nothing) changes that segment, so a later Close of the fragment is re-aimed at an interior point of
+    the old arc: the rest of the path is not left untouched."""
+    vc = ctx.fn("Path.validate_connections", "R19.4")
+    bad = []
+    for st in ast.walk(vc):
+        if isinstance(st, ast.If) and isinstance(st.test, ast.BoolOp) and isinstance(st.test.op, ast.Or):
+            has_none = any(isinstance(v, ast.Compare) and isinstance(v.ops[0], ast.Is) and isinstance(v.comparators[0], ast.Constant) and v.comparators[0].value is None for v in st.test.values)
+            has_move = any(isinstance(v, ast.Call) and call_name(v) == "isinstance" and any(isinstance(x, ast.Name) and x.id == "Move" for x in ast.walk(v)) for v in st.test.values)
+            if has_none and has_move:
+                for a in st.body:
+                    if isinstance(a, ast.Assign) and isinstance(a.value, ast.Attribute) and a.value.attr == "end":
+                        bad.append("line %d: %s when no Move has been seen" % (a.lineno, ast.unparse(a)))
+    ctx.ob("R19.4", "Path.validate_connections[close target of a fragment without a Move]", not bad, "; ".join(bad), vc.lineno,
+           "the close target depends on which segment is first; converting the first arc of a Move-less fragment moves the end of a later Close")
+
+
 def path_level(ctx):
     from ..flow import Taint, bindings
+
+    close_target(ctx)
 
     for kind, gen in (("cubics", "as_cubic_curves"), ("quads", "as_quad_curves")):
         qual = "Path.approximate_arcs_with_%s" % kind
